@@ -7,7 +7,7 @@ Definition sync_sites : list (string * string * string) := [
   ("action_metadata.go", "LocalActionsCache.readCache", "c.mu.RLock");
   ("action_metadata.go", "LocalActionsCache.readCache", "c.mu.RUnlock");
   ("action_metadata.go", "LocalActionsCache.writeCache", "c.mu.Lock");
-  ("action_metadata.go", "LocalActionsCache.writeCache", "c.mu.Unlock");
+  ("action_metadata.go", "LocalActionsCache.writeCache", "defer c.mu.Unlock");
   ("error.go", "ErrorFormatter.RegisterRule", "f.rulesMu.Lock");
   ("error.go", "ErrorFormatter.RegisterRule", "defer f.rulesMu.Unlock");
   ("linter.go", "Linter.LintFiles", "eg.Go");
@@ -24,7 +24,7 @@ Definition sync_sites : list (string * string * string) := [
   ("reusable_workflow.go", "LocalReusableWorkflowCache.readCache", "c.mu.RLock");
   ("reusable_workflow.go", "LocalReusableWorkflowCache.readCache", "c.mu.RUnlock");
   ("reusable_workflow.go", "LocalReusableWorkflowCache.writeCache", "c.mu.Lock");
-  ("reusable_workflow.go", "LocalReusableWorkflowCache.writeCache", "c.mu.Unlock");
+  ("reusable_workflow.go", "LocalReusableWorkflowCache.writeCache", "defer c.mu.Unlock");
   ("reusable_workflow.go", "LocalReusableWorkflowCache.WriteWorkflowCallEvent", "c.mu.RLock");
   ("reusable_workflow.go", "LocalReusableWorkflowCache.WriteWorkflowCallEvent", "c.mu.RUnlock");
   ("reusable_workflow.go", "LocalReusableWorkflowCache.WriteWorkflowCallEvent", "c.mu.Lock");
